@@ -943,3 +943,351 @@ theorem ledger_closeProvider (beh : Beh) (order : List Nat → List Nat) (st : S
     exact (((h0.trans h1).trans h2).trans h3').trans h4
 
 end Godi.Container
+
+namespace Godi.Container
+
+/-! ### resolution never touches an instance that existed before (`OldSame`) -/
+
+/-- ids handed out before the step are neither (un)listed nor closed by it -/
+structure OldSame (st st' : State) : Prop where
+  next : st.next ≤ st'.next
+  same : ∀ j, j < st.next → (Tracked st' j ↔ Tracked st j) ∧ closedCount st'.log j = closedCount st.log j
+
+theorem OldSame.refl (st : State) : OldSame st st := ⟨Nat.le_refl _, fun _ _ => ⟨Iff.rfl, rfl⟩⟩
+theorem OldSame.trans {a b c : State} (h1 : OldSame a b) (h2 : OldSame b c) : OldSame a c :=
+  ⟨Nat.le_trans h1.next h2.next, fun j hj => by
+    obtain ⟨x1, y1⟩ := h1.same j hj
+    obtain ⟨x2, y2⟩ := h2.same j (Nat.lt_of_lt_of_le hj h1.next)
+    exact ⟨x2.trans x1, y2.trans y1⟩⟩
+
+/-- all instances are left alone -/
+def AllSame (st st' : State) : Prop :=
+  ∀ j, (Tracked st' j ↔ Tracked st j) ∧ closedCount st'.log j = closedCount st.log j
+
+theorem AllSame.refl (st : State) : AllSame st st := fun _ => ⟨Iff.rfl, rfl⟩
+theorem AllSame.trans {a b c : State} (h1 : AllSame a b) (h2 : AllSame b c) : AllSame a c :=
+  fun j => ⟨(h2 j).1.trans (h1 j).1, (h2 j).2.trans (h1 j).2⟩
+theorem AllSame.old {st st' : State} (h : AllSame st st') (hn : st.next ≤ st'.next) : OldSame st st' :=
+  ⟨hn, fun j _ => h j⟩
+
+theorem allSame_of_fields {st st' : State} (hd : ∀ s, dispOf st' s = dispOf st s) (hp : provD st' = provD st)
+    (hl : ∀ i, closedCount st'.log i = closedCount st.log i) : AllSame st st' := by
+  intro j
+  refine ⟨?_, hl j⟩
+  unfold Tracked; simp only [hd, hp]
+
+theorem allSame_putInstance (st : State) (s : Nat) (k : Ident) (v : Val) : AllSame st (putInstance st s k v) :=
+  allSame_of_fields (dispOf_updScope st s _ rfl) rfl (fun _ => rfl)
+
+theorem allSame_shareInstance (st : State) (s : Nat) (d : Desc) (k : Ident) (v : Val) :
+    AllSame st (shareInstance st s d k v) ∧ (shareInstance st s d k v).next = st.next := by
+  unfold shareInstance
+  split
+  · exact ⟨allSame_of_fields (fun _ => rfl) rfl (fun _ => rfl), rfl⟩
+  · exact ⟨allSame_putInstance st s k v, rfl⟩
+  · exact ⟨AllSame.refl st, rfl⟩
+
+theorem allSame_shareAll (s self : Nat) (v : Val) : ∀ (sibs : List Desc) (st : State),
+    AllSame st (shareAll st s self sibs v) ∧ (shareAll st s self sibs v).next = st.next := by
+  intro sibs
+  induction sibs with
+  | nil => intro st; exact ⟨AllSame.refl st, rfl⟩
+  | cons d ds ih =>
+    intro st
+    unfold shareAll
+    simp only [List.foldl_cons]
+    have hrest := fun st' => ih st'
+    unfold shareAll at hrest
+    split
+    · exact hrest st
+    · obtain ⟨a1, n1⟩ := allSame_shareInstance st s d d.ident v
+      obtain ⟨a2, n2⟩ := hrest (shareInstance st s d d.ident v)
+      exact ⟨a1.trans a2, n2.trans n1⟩
+
+theorem untouched_of_allSame {st st' : State} (h : AllSame st st') (i : Inst) : Untouched st st' i := fun j _ => h j
+
+theorem Untouched.trans_all {a b c : State} {i : Inst} (h1 : AllSame a b) (h2 : Untouched b c i) : Untouched a c i :=
+  fun j hj => ⟨(h2 j hj).1.trans (h1 j).1, (h2 j hj).2.trans (h1 j).2⟩
+
+theorem Untouched.trans_all' {a b c : State} {i : Inst} (h1 : Untouched a b i) (h2 : AllSame b c) : Untouched a c i :=
+  fun j hj => ⟨(h2 j).1.trans (h1 j hj).1, (h2 j).2.trans (h1 j hj).2⟩
+
+/-- `track` touches the tracked instance only (no hypothesis about the ledger) -/
+theorem track_untouched (st : State) (s : Nat) (i : Inst) (disp : Bool) :
+    Untouched st (track st s (.inst i) disp).1 i ∧ (track st s (.inst i) disp).1.next = st.next := by
+  unfold track
+  simp only []
+  by_cases hdsp : (st.scope s).disposed = true
+  · simp only [hdsp, ↓reduceIte]
+    cases disp with
+    | false => simp only [Bool.false_eq_true, ↓reduceIte]; exact ⟨fun j _ => ⟨Iff.rfl, rfl⟩, by trivial⟩
+    | true =>
+      simp only [↓reduceIte]
+      refine ⟨fun j hj => ⟨Iff.rfl, ?_⟩, rfl⟩
+      show closedCount (st.log ++ [_]) j = _
+      rw [closedCount_append, closedCount_closed]; simp [Ne.symm hj]
+  · have hdsp' : (st.scope s).disposed = false := by simpa using hdsp
+    simp only [hdsp', Bool.false_eq_true, ↓reduceIte]
+    cases disp with
+    | false => simp only [Bool.false_eq_true, ↓reduceIte]; exact ⟨fun j _ => ⟨Iff.rfl, rfl⟩, by trivial⟩
+    | true =>
+      simp only [↓reduceIte]
+      refine ⟨fun j hj => ⟨?_, rfl⟩, rfl⟩
+      have hm := mem_dispOf_append st s i
+      unfold Tracked
+      constructor
+      · rintro (⟨x, hx⟩ | h)
+        · rcases (hm x j).1 hx with h | ⟨_, h⟩
+          · exact Or.inl ⟨x, h⟩
+          · exact absurd h hj
+        · exact Or.inr h
+      · rintro (⟨x, hx⟩ | h)
+        · exact Or.inl ⟨x, (hm x j).2 (Or.inl hx)⟩
+        · exact Or.inr h
+
+/-- `setInstance` of an instance value, any lifetime: only that instance is touched -/
+theorem setInstance_untouched (st : State) (s : Nat) (d : Desc) (k : Ident) (i : Inst) :
+    Untouched st (setInstance st s d k (.inst i)).1 i ∧ (setInstance st s d k (.inst i)).1.next = st.next := by
+  unfold setInstance
+  split
+  · simp only []
+    split
+    · refine ⟨fun j hj => ⟨?_, rfl⟩, rfl⟩
+      unfold Tracked provD storeSingleton
+      simp only [Option.getD_some, List.mem_append, List.mem_singleton]
+      constructor
+      · rintro (h | h | h)
+        · exact Or.inl h
+        · exact Or.inr h
+        · exact absurd h hj
+      · rintro (h | h)
+        · exact Or.inl h
+        · exact Or.inr (Or.inl h)
+    · exact ⟨fun j _ => ⟨Iff.rfl, rfl⟩, rfl⟩
+  · obtain ⟨u, n⟩ := track_untouched (putInstance st s k (.inst i)) s i d.disp
+    exact ⟨Untouched.trans_all (allSame_putInstance st s k _) u, n⟩
+  · exact track_untouched st s i d.disp
+
+theorem setInstance_other_allSame (st : State) (s : Nat) (d : Desc) (k : Ident) (v : Val) (hv : ∀ i, v ≠ .inst i) :
+    AllSame st (setInstance st s d k v).1 ∧ (setInstance st s d k v).1.next = st.next := by
+  unfold setInstance
+  split
+  · cases v with
+    | inst i => exact absurd rfl (hv i)
+    | _ => exact ⟨allSame_of_fields (fun _ => rfl) rfl (fun _ => rfl), rfl⟩
+  · rw [track_other _ s v d.disp hv]; exact ⟨allSame_putInstance st s k v, rfl⟩
+  · rw [track_other _ s v d.disp hv]; exact ⟨AllSame.refl st, rfl⟩
+
+/-- `storeOuts` touches its outputs only -/
+theorem storeOuts_untouched (s : Nat) : ∀ (sibs : List Desc) (outs : List Inst) (st : State),
+    (∀ j, j ∉ outs → (Tracked (storeOuts st s sibs outs).1 j ↔ Tracked st j) ∧
+      closedCount (storeOuts st s sibs outs).1.log j = closedCount st.log j) ∧
+    (storeOuts st s sibs outs).1.next = st.next := by
+  intro sibs
+  induction sibs with
+  | nil => intro outs st; unfold storeOuts; exact ⟨fun _ _ => ⟨Iff.rfl, rfl⟩, rfl⟩
+  | cons d ds ih =>
+    intro outs st
+    cases outs with
+    | nil => unfold storeOuts; exact ⟨fun _ _ => ⟨Iff.rfl, rfl⟩, rfl⟩
+    | cons o os =>
+      unfold storeOuts
+      simp only []
+      obtain ⟨u1, n1⟩ := setInstance_untouched st s d d.ident o
+      obtain ⟨u2, n2⟩ := ih os (setInstance st s d d.ident (.inst o)).1
+      refine ⟨?_, n2.trans n1⟩
+      intro j hj
+      have hjo : j ≠ o := fun e => hj (by rw [e]; simp)
+      have hjos : j ∉ os := fun h => hj (List.mem_cons_of_mem _ h)
+      exact ⟨(u2 j hjos).1.trans (u1 j hjo).1, (u2 j hjos).2.trans (u1 j hjo).2⟩
+
+theorem allSame_bumpInv (st : State) (c : Nat) : AllSame st (bumpInv st c) := fun _ => ⟨Iff.rfl, rfl⟩
+theorem allSame_alloc (st : State) (k c n : Nat) : AllSame st (alloc st k c n) := fun _ => ⟨Iff.rfl, rfl⟩
+theorem allSame_logCtor (st : State) (d c inv s : Nat) (a : List Val) (o : List Inst) :
+    AllSame st (logEv st (.ctor d c inv s a o)) := fun j => ⟨Iff.rfl, by
+  show closedCount (st.log ++ [_]) j = _
+  rw [closedCount_append, closedCount_ctor]; rfl⟩
+theorem allSame_logFail (st : State) (d c inv s : Nat) (how : Outcome) :
+    AllSame st (logEv st (.ctorFail d c inv s how)) := fun j => ⟨Iff.rfl, by
+  show closedCount (st.log ++ [_]) j = _
+  rw [closedCount_append, closedCount_ctorFail]; rfl⟩
+
+/-- what `createInstance` does after the arguments are built — invocation counter, constructor
+outcome, allocation of fresh ids, storing them — leaves alone every id below the counter it started
+from; for every lifetime (`hk`: not an instance value) -/
+theorem create_tail_old (beh : Beh) (f : Nat) (st : State) (s : Nat) (d : Desc) (hk : ∀ v, d.kind ≠ .inst v)
+    (hA : OldSame st (buildArgs beh f st s d.deps []).1) :
+    OldSame st (createInstance beh (f + 1) st s d).1 := by
+  unfold createInstance
+  split
+  next v hkv => exact absurd hkv (hk v)
+  · simp only []
+    generalize buildArgs beh f st s d.deps [] = ra at hA
+    split
+    · exact hA
+    next args _ =>
+      have h2 : OldSame st (bumpInv ra.1 d.ctor) := hA.trans ((allSame_bumpInv ra.1 d.ctor).old (Nat.le_refl _))
+      split
+      · exact h2.trans ((allSame_logFail _ _ _ _ _ _).old (Nat.le_refl _))
+      · exact h2.trans ((allSame_logFail _ _ _ _ _ _).old (Nat.le_refl _))
+      · exact h2.trans ((allSame_logFail _ _ _ _ _ _).old (Nat.le_refl _))
+      · split
+        · -- void
+          obtain ⟨a, n⟩ := setInstance_other_allSame
+            (logEv (bumpInv ra.1 d.ctor) (.ctor d.id d.ctor ((bumpInv ra.1 d.ctor).invs d.ctor) s args [])) s d d.ident .unit
+            (fun i h => by cases h)
+          exact (h2.trans ((allSame_logCtor _ _ _ _ _ _ _).old (Nat.le_refl _))).trans (a.old (Nat.le_of_eq n.symm))
+        · -- multi
+          have hmulti : ∀ sibs' : List Desc, OldSame st (storeOuts
+              (logEv (alloc (bumpInv ra.1 d.ctor) sibs'.length d.ctor ((bumpInv ra.1 d.ctor).invs d.ctor))
+                (.ctor d.id d.ctor ((bumpInv ra.1 d.ctor).invs d.ctor) s args
+                  (allocOuts (bumpInv ra.1 d.ctor).next sibs'.length)))
+              s sibs' (allocOuts (bumpInv ra.1 d.ctor).next sibs'.length)).1 := by
+            intro sibs'
+            obtain ⟨u, n⟩ := storeOuts_untouched s sibs' (allocOuts (bumpInv ra.1 d.ctor).next sibs'.length)
+              (logEv (alloc (bumpInv ra.1 d.ctor) sibs'.length d.ctor ((bumpInv ra.1 d.ctor).invs d.ctor))
+                (.ctor d.id d.ctor ((bumpInv ra.1 d.ctor).invs d.ctor) s args
+                  (allocOuts (bumpInv ra.1 d.ctor).next sibs'.length)))
+            have h3 : OldSame st (logEv (alloc (bumpInv ra.1 d.ctor) sibs'.length d.ctor ((bumpInv ra.1 d.ctor).invs d.ctor))
+                (.ctor d.id d.ctor ((bumpInv ra.1 d.ctor).invs d.ctor) s args
+                  (allocOuts (bumpInv ra.1 d.ctor).next sibs'.length))) :=
+              (h2.trans ((allSame_alloc _ _ _ _).old (Nat.le_add_right _ _))).trans
+                ((allSame_logCtor _ _ _ _ _ _ _).old (Nat.le_refl _))
+            refine ⟨Nat.le_trans h3.next (Nat.le_of_eq n.symm), ?_⟩
+            intro j hj
+            have hjn : j ∉ allocOuts (bumpInv ra.1 d.ctor).next sibs'.length := by
+              intro hm
+              exact Nat.lt_irrefl _ (Nat.lt_of_lt_of_le hj (Nat.le_trans h2.next (mem_allocOuts hm).1))
+            obtain ⟨x1, y1⟩ := h3.same j hj
+            obtain ⟨x2, y2⟩ := u j hjn
+            exact ⟨x2.trans x1, y2.trans y1⟩
+          cases beh.nilField d.ctor ((bumpInv ra.1 d.ctor).invs d.ctor) with
+          | none => exact hmulti _
+          | some k => exact hmulti _
+        · -- plain
+          have h3 : OldSame st (logEv (alloc (bumpInv ra.1 d.ctor) 1 d.ctor ((bumpInv ra.1 d.ctor).invs d.ctor))
+              (.ctor d.id d.ctor ((bumpInv ra.1 d.ctor).invs d.ctor) s args [(bumpInv ra.1 d.ctor).next])) :=
+            (h2.trans ((allSame_alloc _ _ _ _).old (Nat.le_add_right _ _))).trans
+              ((allSame_logCtor _ _ _ _ _ _ _).old (Nat.le_refl _))
+          obtain ⟨u, n⟩ := setInstance_untouched
+            (logEv (alloc (bumpInv ra.1 d.ctor) 1 d.ctor ((bumpInv ra.1 d.ctor).invs d.ctor))
+              (.ctor d.id d.ctor ((bumpInv ra.1 d.ctor).invs d.ctor) s args [(bumpInv ra.1 d.ctor).next])) s d d.ident
+            (bumpInv ra.1 d.ctor).next
+          have h4 : OldSame st (setInstance
+              (logEv (alloc (bumpInv ra.1 d.ctor) 1 d.ctor ((bumpInv ra.1 d.ctor).invs d.ctor))
+                (.ctor d.id d.ctor ((bumpInv ra.1 d.ctor).invs d.ctor) s args [(bumpInv ra.1 d.ctor).next])) s d d.ident
+              (.inst (bumpInv ra.1 d.ctor).next)).1 := by
+            refine ⟨Nat.le_trans h3.next (Nat.le_of_eq n.symm), ?_⟩
+            intro j hj
+            have hjn : j ≠ (bumpInv ra.1 d.ctor).next := by
+              intro e; rw [e] at hj
+              exact Nat.lt_irrefl _ (Nat.lt_of_lt_of_le hj h2.next)
+            obtain ⟨x1, y1⟩ := h3.same j hj
+            obtain ⟨x2, y2⟩ := u j hjn
+            exact ⟨x2.trans x1, y2.trans y1⟩
+          split
+          · exact h4
+          · obtain ⟨a, n2⟩ := allSame_shareAll s d.id (.inst (bumpInv ra.1 d.ctor).next)
+              (d.sibs.filterMap (findDesc (bumpInv ra.1 d.ctor).descs)) _
+            exact h4.trans (a.old (Nat.le_of_eq n2.symm))
+
+/-- materialising a registered instance value touches that value only -/
+theorem create_inst_untouched (beh : Beh) (f : Nat) (st : State) (s : Nat) (d : Desc) (v : Inst) (hk : d.kind = .inst v) :
+    Untouched st (createInstance beh (f + 1) st s d).1 v ∧ (createInstance beh (f + 1) st s d).1.next = st.next := by
+  unfold createInstance
+  split
+  next v' hk' =>
+    have : v' = v := by rw [hk] at hk'; injection hk' with h; exact h.symm
+    subst this
+    simp only []
+    obtain ⟨u1, n1⟩ := setInstance_untouched st s d d.ident v'
+    split
+    · exact ⟨u1, n1⟩
+    · obtain ⟨a, n2⟩ := allSame_shareAll s d.id (.inst v') (d.sibs.filterMap (findDesc st.descs))
+        (setInstance st s d d.ident (.inst v')).1
+      exact ⟨Untouched.trans_all' u1 a, n2.trans n1⟩
+  next hne => exact absurd hk (hne v)
+
+/-- RESOLUTION LEAVES EXISTING INSTANCES ALONE: nothing that was handed out before is listed,
+unlisted or closed by a resolution (scoped and transient registrations are constructor-registered) -/
+theorem old_frame (beh : Beh) : ∀ fuel,
+    (∀ st s ty key, WF st.descs → InstSingleton st.descs → OldSame st (resolve beh fuel st s ty key).1) ∧
+    (∀ st s d, WF st.descs → InstSingleton st.descs → d ∈ st.descs → OldSame st (resolveDesc beh fuel st s d).1) ∧
+    (∀ st s ty grp, WF st.descs → InstSingleton st.descs → OldSame st (getGroup beh fuel st s ty grp).1) ∧
+    (∀ st s ds acc, WF st.descs → InstSingleton st.descs → (∀ d ∈ ds, d ∈ st.descs) →
+      OldSame st (resolveMembers beh fuel st s ds acc).1) ∧
+    (∀ st s deps acc, WF st.descs → InstSingleton st.descs → OldSame st (buildArgs beh fuel st s deps acc).1) ∧
+    (∀ st s d, WF st.descs → InstSingleton st.descs → (∀ v, d.kind ≠ .inst v) →
+      OldSame st (createInstance beh fuel st s d).1) := by
+  intro fuel
+  induction fuel with
+  | zero =>
+    refine ⟨?_, ?_, ?_, ?_, ?_, ?_⟩ <;> intros <;>
+      simp [resolve, resolveDesc, getGroup, resolveMembers, buildArgs, createInstance] <;> exact OldSame.refl _
+  | succ f ih =>
+    obtain ⟨ihR, ihD, ihG, ihM, ihA, ihC⟩ := ih
+    refine ⟨?_, ?_, ?_, ?_, ?_, ?_⟩
+    · intro st s ty key wf is
+      unfold resolve
+      split; · exact OldSame.refl _
+      split; · exact OldSame.refl _
+      split; · exact OldSame.refl _
+      split; · exact OldSame.refl _
+      split
+      · exact OldSame.refl _
+      next d hd => exact ihD st s d wf is (findService_mem hd)
+    · intro st s d wf is hd
+      have hk : d.life ≠ .singleton → ∀ v, d.kind ≠ .inst v := fun hl v hv => hl (is d hd v hv)
+      unfold resolveDesc
+      split
+      · split <;> exact OldSame.refl _
+      next hl =>
+        split
+        · exact OldSame.refl _
+        · exact ihC st s d wf is (hk (by rw [hl]; simp))
+      next hl => exact ihC st s d wf is (hk (by rw [hl]; simp))
+    · intro st s ty grp wf is
+      unfold getGroup
+      split; · exact OldSame.refl _
+      exact ihM st s _ [] wf is (fun d hd => groupMembers_mem hd)
+    · intro st s ds acc wf is hds
+      cases ds with
+      | nil => unfold resolveMembers; exact OldSame.refl _
+      | cons d rest =>
+        unfold resolveMembers
+        have h1 := ihD st s d wf is (hds d (by simp))
+        have e1 := (frame beh f).2.1 st s d wf (hds d (by simp))
+        have wf1 : WF (resolveDesc beh f st s d).1.descs := by rw [e1.descs]; exact wf
+        have is1 : InstSingleton (resolveDesc beh f st s d).1.descs := by rw [e1.descs]; exact is
+        have hrest : ∀ x ∈ rest, x ∈ (resolveDesc beh f st s d).1.descs := by
+          intro x hx; rw [e1.descs]; exact hds x (List.mem_cons_of_mem _ hx)
+        simp only []
+        split
+        · exact h1.trans (ihM _ s rest _ wf1 is1 hrest)
+        · exact h1.trans (ihM _ s rest _ wf1 is1 hrest)
+        · exact h1
+    · intro st s deps acc wf is
+      cases deps with
+      | nil => unfold buildArgs; exact OldSame.refl _
+      | cons dep rest =>
+        unfold buildArgs
+        simp only []
+        generalize hr : (if dep.grp != 0 then getGroup beh f st s dep.ty dep.grp
+            else resolve beh f st s dep.ty dep.key) = r
+        have h1 : OldSame st r.1 ∧ Ext st r.1 s := by
+          rw [← hr]
+          split
+          · exact ⟨ihG st s _ _ wf is, (frame beh f).2.2.1 st s _ _ wf⟩
+          · exact ⟨ihR st s _ _ wf is, (frame beh f).1 st s _ _ wf⟩
+        obtain ⟨h1, e1⟩ := h1
+        have wf1 : WF r.1.descs := by rw [e1.descs]; exact wf
+        have is1 : InstSingleton r.1.descs := by rw [e1.descs]; exact is
+        split
+        · exact h1.trans (ihA r.1 s rest _ wf1 is1)
+        · split
+          · exact h1.trans (ihA r.1 s rest _ wf1 is1)
+          · exact h1
+    · intro st s d wf is hk
+      exact create_tail_old beh f st s d hk (ihA st s d.deps [] wf is)
+
+end Godi.Container
